@@ -81,4 +81,15 @@ Section SolverSem.
     else (c, snd st).
   Definition ic_run (G : ic_glue) (store is_cg : bool) (op rhs : M) (xs : list M) : nat * list A :=
     fold_left (ic_call G store is_cg op rhs) xs (O, []).
+
+  (* the wrappers gmres / cg: [flag] is the name of the wrapper's parameter handed to IterationCounter as store_residuals
+     (regenerated table store_flags); the return tuple is (x, info[, callback.residuals if return_residuals][, callback.count
+     if return_iteration_count]) -- the tail of every wrapper, checked literally by the translator *)
+  Definition store_of (flag : string) (return_residuals return_iteration_count : bool) : bool :=
+    if String.eqb flag "return_residuals" then return_residuals
+    else if String.eqb flag "return_iteration_count" then return_iteration_count else false.
+  Definition wrapper_out (G : ic_glue) (flag : string) (rr ric is_cg : bool) (op rhs : M) (xs : list M)
+    : option (list A) * option nat :=
+    let cr := ic_run G (store_of flag rr ric) is_cg op rhs xs in
+    (if rr then Some (snd cr) else None, if ric then Some (fst cr) else None).
 End SolverSem.
